@@ -61,6 +61,14 @@ Theorem C18_single_edit : forall a b b',
 Proof. exact c18_single_edit. Qed.
 Print Assumptions C18_single_edit.
 
+(** Transitivity: equal answers chain, so on trees that share no node object is_equal is
+    an equivalence relation (with [C18_sym] and [C18_refl_copy]). *)
+Theorem C18_trans : forall a b c,
+  tree_wf (erase a) -> tree_wf (erase b) -> tree_wf (erase c) -> disjoint_objs a c ->
+  is_equal a b = true -> is_equal b c = true -> is_equal a c = true.
+Proof. exact c18_trans. Qed.
+Print Assumptions C18_trans.
+
 (** Non-vacuity: a copy compares equal, an edit of the second child's extras is seen,
     dict insertion order is not, the same object compares unequal. *)
 Example C18_example :
